@@ -67,10 +67,15 @@ if [ "$TIER" = "thorough" ] && [ $rc -eq 0 ] && [ ${#ARGS[@]} -eq 0 ]; then
       rp="$ROOT/evidence/replay/$ID-fuzz-$T-$(basename "$art").json"
       "$ROOT/harness/target/release/vcheck" --artifact-case "$ID" "$T" "$art" > "$rp"
       # only a crash that reproduces under this property's own oracle counts for this property
-      if ! "$ROOT/harness/target/release/vcheck" "$ID" quick --replay "$rp" >/dev/null 2>&1; then
+      "$ROOT/harness/target/release/vcheck" "$ID" quick --replay "$rp" >/dev/null 2>&1; arc=$?
+      if [ $arc -eq 1 ]; then
         "$ROOT/harness/target/release/vcheck" "$ID" quick --replay "$rp" | grep -v '^VIOLATION'
         echo "VIOLATION property=$ID replay=$rp"
         rc=1
+      elif [ $arc -ne 0 ] && [ $rc -eq 0 ]; then
+        # a unit that is only slow (libFuzzer's slow-unit report on a loaded machine) or whose replay times out decides nothing
+        echo "INCONCLUSIVE: the replay of $art did not finish (exit $arc)"
+        rc=2
       fi
     done
   done
